@@ -133,6 +133,19 @@ ATTR_CORNERS = ["@print {T}.{a}", "uint8 AX_K = {T}.{a}", "uint8[<={T}.{a}] ax_a
 
 
 def corrupt(rng: random.Random, text: str, others: list[str], svc_names: list[str], type_attrs: list | None = None, own: str | None = None) -> tuple[str, str]:
+    if rng.random() < 0.04:
+        # a versioned reference of the text re-spelled in another letter case (root, namespace or short name): the file that
+        # contains it is the offending one
+        import re as _re
+        refs = list(_re.finditer(r"(?<![A-Za-z0-9_.])([A-Za-z_][A-Za-z0-9_]*(?:\.[A-Za-z_][A-Za-z0-9_]*)+)\.(\d+)\.(\d+)", text))
+        if refs:
+            m = rng.choice(refs)
+            comps = m.group(1).split(".")
+            i = rng.randrange(len(comps))
+            alt = comps[i].swapcase() if rng.random() < 0.5 else (comps[i][:-1] + comps[i][-1].swapcase())
+            if alt != comps[i]:
+                comps[i] = alt
+                return "case_ref", text[:m.start(1)] + ".".join(comps) + text[m.end(1):]
     if own and rng.random() < 0.05:
         # an undefined reference whose leading components repeat names of the referring definition itself
         comps = own.split(".")[:-2]
